@@ -45,7 +45,7 @@ Theorem C12_response_delivered_only_if_well_formed :
 Proof. exact response_gate_sound. Qed.
 Theorem C12_malformed_response_refused_with_message_error :
   forall g fs, wf_fields fs -> ~ wf_response http_parseable fs ->
-    exists r, recv_response g fs = Refused r /\ r_code r = H3_MESSAGE_ERROR_rfc.
+    exists r, recv_response g fs = Refused r /\ r_code r = H3_MESSAGE_ERROR_rfc /\ r_stop_sending r = Some H3_MESSAGE_ERROR_rfc.
 Proof. exact response_gate_complete. Qed.
 
 (* trailers: poll_recv_trailers *)
